@@ -6,6 +6,7 @@ pub(crate) enum MetainfoError {
   InfoMissing,
   InfoType,
   ContentSize,
+  PathDepth,
 }
 
 impl MetainfoError {
@@ -15,6 +16,7 @@ impl MetainfoError {
       Self::InfoMissing => "Dictionary missing info key",
       Self::InfoType => "Info value not dictionary",
       Self::ContentSize => "Sum of file lengths does not fit in 64 bits",
+      Self::PathDepth => "File path has too many components",
     }
   }
 }
